@@ -275,6 +275,9 @@ class Client(BaseComponent):
         except OSError as e:
             if e.args[0] in (EPIPE, ENOTCONN):
                 self._close()
+            elif e.args[0] in (EINTR, EWOULDBLOCK, ENOBUFS):
+                # try again when the socket is writable (as Server does)
+                self._buffer.appendleft(data)
             else:
                 self.fire(error(e))
 
